@@ -377,6 +377,14 @@ def _run_version(shard, acc):
                     _emit(acc, {'kind': 'triple', 'level': 'subcomponent', 'via': 'field-path', 'v': v, 's': s, 'fname': fname,
                                 'i': i, 'cname': cname, 'j': j, 'sname': sname, 'k': k, 'A': A, 'B': B, 'C': C, 'val': sval,
                                 'sigkey': 'fieldpath'}, True)
+        for (fname, i, ref, card) in rows:
+            if ref[2] == 'varies' and s != 'MSH':
+                # components of a field of varying type: VARIES_<j> in any letter case, and the positional path
+                j = 1 + rnd.randrange(3)
+                vsp = [(x, 'name') for x in case_variants('VARIES_%d' % j, rnd)] + [(x, 'path') for x in case_variants('%s_%d' % (fname, j), rnd)]
+                (A, ka), (B, kb), (C, kc) = rnd.choice(vsp), rnd.choice(vsp), rnd.choice(vsp)
+                _emit2(acc, {'kind': 'triple', 'level': 'component', 'v': v, 's': s, 'fname': fname, 'i': i, 'cname': 'VARIES_%d' % j,
+                             'j': j, 'A': A, 'B': B, 'C': C, 'val': 'v%d' % j, 'sigkey': 'varies:%s>%s>%s' % (ka, kb, kc)}, True)
         base_rows = [r for r in rows if r[1] and T.is_base(v, r[2][2]) and r[3][1] != 0 and s != 'MSH']
         if base_rows:
             r = base_rows[rnd.randrange(len(base_rows))]
@@ -420,6 +428,13 @@ def _run_version(shard, acc):
             _emit(acc, {'kind': 'negative', 'on': 'segment', 'v': v, 's': s, 'fname': first[0], 'fill': fill, 'bad': bad,
                         'why': why}, True)
         cx = [(r, T.ref_children(v, r[2])) for r in rows if T.ref_children(v, r[2])]
+        # the path of a field whose number merely starts with this field's number (PID_3 asked for PID_30_1, PID_1 for PID_10_1)
+        pairs = [(r, r2) for r in rows for r2 in rows if r[1] and r2[1] != r[1] and str(r2[1]).startswith(str(r[1])) and s != 'MSH' and r[3][1] != 0]
+        for r, r2 in (rnd.sample(pairs, 2) if len(pairs) > 2 else pairs):
+            fill = lit.valid(lit.first_leaf_dt(T, v, r[2]), 0)
+            for bad in ('%s_1' % r2[0], '%s_1_1' % r2[0]):
+                _emit(acc, {'kind': 'negative', 'on': 'field', 'v': v, 's': s, 'fname': r[0], 'fill': fill,
+                            'bad': rnd.choice(case_variants(bad, rnd)), 'why': 'path-of-field-with-longer-number'}, True)
         if cx:
             # a field given another complex datatype after the tables were consulted (assigned, or passed to the constructor):
             # names, long names and paths of the NEW datatype address its components; the long names of the former one
